@@ -239,20 +239,29 @@ class Evaluator:
         if k == "CompoundStmt":
             return self._stmts(fn, st.get("c", []), [(assume, env, None)], depth)
         if k == "DeclStmt":
-            env = dict(env)
+            paths = [(assume, dict(env))]
             for d in st.get("c", []):
-                if d.get("k") == "VarDecl":
+                if d.get("k") != "VarDecl":
+                    continue
+                nxt = []
+                for as0, e0 in paths:
                     if d.get("c") and not d.get("w") and (d.get("ct") or d.get("t") or "").rstrip().endswith(("*", "*const")):
-                        env[d["d"]] = self._pointer(fn, d["c"][0], env, depth)
+                        e0 = dict(e0)
+                        e0[d["d"]] = self._pointer(fn, d["c"][0], e0, depth)
+                        nxt.append((as0, e0))
                     elif d.get("c") and d.get("w"):
-                        vs = self._expr(fn, d["c"][0], env, depth)
-                        if len(vs) != 1:
-                            raise Unsupported("forking initialiser")
-                        env[d["d"]] = self._conv(vs[0][1], d["w"], d["c"][0])
-                        assume = dict(assume, **vs[0][0])
+                        for a2, v in self._expr(fn, d["c"][0], e0, depth):
+                            e2 = {kk: (vv.subst(a2) if isinstance(vv, BV) else vv) for kk, vv in e0.items()} if a2 else dict(e0)
+                            e2[d["d"]] = self._conv(v, d["w"], d["c"][0])
+                            nxt.append((dict(as0, **a2), e2))
                     else:
-                        env[d["d"]] = None
-            return [(assume, env, None)]
+                        e0 = dict(e0)
+                        e0[d["d"]] = None
+                        nxt.append((as0, e0))
+                paths = nxt
+                if len(paths) > self.MAX_PATHS:
+                    raise Unsupported("too many paths")
+            return [(a, e, None) for a, e in paths]
         if k == "ReturnStmt":
             if not st.get("c"):
                 return [(assume, env, "void")]
@@ -613,6 +622,9 @@ class Evaluator:
                     out.extend((dict(a, **a2), v) for a2, v in self._expr(fn, n["c"][2], env, depth))
                 elif any(is_const(b) and b[1] for b in nz):
                     out.extend((dict(a, **a2), v) for a2, v in self._expr(fn, n["c"][1], env, depth))
+                elif len(nz) == 1 and split_on(nz[0]) and self._mux(fn, n, nz[0], env, depth) is not None:
+                    # both arms differ by constants only: cond ? x^K : x  ==  x ^ (cond & K), no case split needed
+                    out.append((a, self._mux(fn, n, nz[0], env, depth)))
                 elif len(nz) == 1 and split_on(nz[0]):
                     for tk, asg in split_on(nz[0]):
                         taken = 1 if tk else 2
@@ -629,6 +641,28 @@ class Evaluator:
         if is_call(n):
             return self._call(fn, n, env, depth)
         raise Unsupported("expression kind %s (%s)" % (k, show(n)[:40]))
+
+    def _mux(self, fn, n, cbit, env, depth):
+        """cond ? A : B as one value when every bit of A and B is equal or differs by the constant 1."""
+        try:
+            va = self._expr(fn, n["c"][1], env, depth)
+            vb = self._expr(fn, n["c"][2], env, depth)
+        except Unsupported:
+            return None
+        if len(va) != 1 or len(vb) != 1 or va[0][0] or vb[0][0]:
+            return None
+        A, B = va[0][1], vb[0][1]
+        w = n.get("w") or max(A.width, B.width)
+        A, B = A.resize(w, self._signed(n["c"][1])), B.resize(w, self._signed(n["c"][2]))
+        bits = []
+        for x, y in zip(A.bits, B.bits):
+            if x is TOP or y is TOP:
+                return None
+            d = bxor(x, y)
+            if d[0]:
+                return None
+            bits.append(bxor(y, cbit) if d[1] else y)
+        return BV(bits)
 
     def _signed(self, node):
         s = strip(node)
@@ -861,31 +895,37 @@ class Evaluator:
             raise Unsupported("call to %s cannot be inlined" % notpl(n.get("q") or "?"))
         callee = targets[0]
         args = call_args(n)
-        cenv = {}
         # members of *this stay visible to methods of the same object
-        for kk, vv in env.items():
-            cenv[kk] = vv
-        assume = {}
+        variants = [({}, dict(env))]        # (assumptions, callee environment) - one per combination of argument cases
         for p, a in zip(callee.params, args):
             pt = p.get("ct") or p.get("t") or ""
             sc = self._struct_constant(fn, a, pt)
             if sc is not None:
-                cenv[p["d"]] = sc
+                for _a, ce in variants:
+                    ce[p["d"]] = sc
                 continue
             if "*" in pt or "&" in pt and not p.get("w"):
                 # pointer/reference to an input array (+ constant offset)
-                cenv[p["d"]] = self._pointer(fn, a, env, depth)
+                pv = self._pointer(fn, a, env, depth)
+                for _a, ce in variants:
+                    ce[p["d"]] = pv
                 continue
-            vs = self._expr(fn, a, env, depth)
-            if len(vs) != 1:
-                raise Unsupported("forking argument")
-            assume.update(vs[0][0])
-            w = p.get("w")
-            cenv[p["d"]] = self._conv(vs[0][1], w, a) if w else vs[0][1]
+            nxt = []
+            for as0, ce in variants:
+                e0 = {kk: (vv.subst(as0) if isinstance(vv, BV) else vv) for kk, vv in env.items()} if as0 else env
+                for a2, v in self._expr(fn, a, e0, depth):
+                    ce2 = {kk: (vv.subst(a2) if isinstance(vv, BV) else vv) for kk, vv in ce.items()} if a2 else dict(ce)
+                    w = p.get("w")
+                    ce2[p["d"]] = self._conv(v, w, a) if w else v
+                    nxt.append((dict(as0, **a2), ce2))
+            variants = nxt
+            if len(variants) > self.MAX_PATHS:
+                raise Unsupported("too many paths")
         out = []
-        for a2, e2, ret in self._stmts(callee, [callee.body], [(assume, cenv, None)], depth + 1):
-            if ret is None or ret == "void":
-                raise Unsupported("callee %s has a path without a value" % callee.qn)
-            w = n.get("w")
-            out.append((a2, ret.resize(w, False) if w else ret))
+        for assume, cenv in variants:
+            for a2, e2, ret in self._stmts(callee, [callee.body], [(assume, cenv, None)], depth + 1):
+                if ret is None or ret == "void":
+                    raise Unsupported("callee %s has a path without a value" % callee.qn)
+                w = n.get("w")
+                out.append((a2, ret.resize(w, False) if w else ret))
         return out
